@@ -2,97 +2,100 @@ import Fabio.Generated.C02
 /-!
 C02 — obligations over the facts regenerated from /repo on every run (`tools/factgen/c02.go`).
 
-Each fact is the *skeleton* of an anchored function: its control statements and the calls/assignments the
-model depends on, in source order, everything else (logging, metrics) left out. A skeleton that no longer
-matches is a broken tie between the Lean model (`Model/C02.lean`) and the code.
+Each fact is an ordered EVENT list of an anchored function, built to pin meaning rather than spelling (see the
+header of `c02.go`): the AST is normalised (constants inlined, `switch` → `if` chain), calls into unexported
+same-package helpers are followed, an `if`/`for`/`range` appears only when a pinned call, a pinned store or a
+`return`/`continue`/`break` of the anchored function happens inside it, and variables are named by role
+(`p0` first parameter, `NewTable#0` first result of the call to `NewTable`, `recv(WatchServices#0)` received from
+the channel `WatchServices` returned, `copy(X)` assigned from the variable with role `X`, `rangeV` range value,
+`var:atomic.Value` the package-level cell, `decl:T`/`lit:T` declared without value / composite literal).
+`if(≠nil)` is a guard `x != nil`, `if(=nil:r)` a guard `r == nil`; returns list `nil`/`val` per result.
+An event list that no longer matches is a broken tie between the Lean model (`Model/C02.lean`) and the code.
 -/
 namespace Fabio.Props.C02Facts
 open Fabio.Generated.C02
 
-/-- `Cell.setTable none = c` (`setTable_nil_ignored`): `SetTable` returns before the only `table.Store` when
-`t == nil`, and stores its parameter otherwise. -/
+/-- `Cell.setTable none = c` (`setTable_nil_ignored`): `SetTable` returns before the only `Store` on the cell
+when its parameter is nil, stores its parameter otherwise, and touches no other atomic / clears nothing. -/
 theorem setTable_returns_before_store_on_nil :
-    setTableSkeleton = ["if(t == nil){", "return", "}", "call:table.Store(t)"] := by decide
+    setTableEvents = ["if(=nil:p0){", "return", "}", "call:var:atomic.Value.Store(p0)"] := by decide
 
-/-- `Cell.load` is ONE micro-step: `GetTable` is the single statement `return table.Load().(Table)`. -/
+/-- `Cell.load` is ONE micro-step: the only call `GetTable` makes is one `Load` on the cell, then it returns. -/
 theorem getTable_is_one_load :
-    getTableSkeleton = ["return table.Load().(Table)", "call:table.Load()"] ∧ getTableStatements = 1 := by decide
+    getTableEvents = ["call:var:atomic.Value.Load()", "return val"] := by decide
 
-/-- The cell is written by `init` (the empty table: `Cell.init`) and `SetTable` only, read by `GetTable` only,
-and touched through `Load`/`Store` only (no Swap/CompareAndSwap): the thread programs of the model are the
-only ways to reach it. -/
+/-- There is one cell; it is written by `init` (the empty table: `Cell.init`) and `SetTable` only, read by
+`GetTable` only, and touched through `Load`/`Store` only (no Swap/CompareAndSwap): the thread programs of the
+model are the only ways to reach it. -/
 theorem cell_access_sites :
-    tableStoreSites = ["SetTable", "init"] ∧ tableLoadSites = ["GetTable"] ∧ tableOtherUses = [] := by decide
+    cellVariables = 1 ∧ tableStoreSites = ["SetTable", "init"] ∧ tableLoadSites = ["GetTable"] ∧
+    tableOtherUses = [] := by decide
 
 /-- `build : Text → Option T` has no third outcome: `NewTable` returns `nil, err` when `Parse` fails and on the
-FIRST failing command inside the loop, `t, nil` only after the loop and the sort (`no_partial_table`). -/
+FIRST failing command inside the loop over the definitions, and `table, nil` only after that loop and after
+sorting every host's routes (`no_partial_table`). -/
 theorem newTable_never_returns_partial_table :
-    newTableSkeleton = ["call:Parse(b)", "if(err != nil){", "return nil, err", "}", "call:make(Table)",
-      "range(defs){", "if(err != nil){", "return nil, err", "}", "}", "range(t){", "call:sort.Sort(h)", "}",
-      "return t, nil"] := by decide
+    newTableEvents = ["call:Parse(p0)", "if(≠nil){", "return nil,val", "}", "call:make(Table)", "range{", "if(≠nil){",
+      "return nil,val", "}", "}", "range{", "call:sort.Sort(rangeV)", "}", "return val,nil"] := by decide
 
-/-- same for `NewTableCustom`, which additionally refuses a nil definition list before dereferencing it
-(`newTableCustom` rather than `newTableCustomOld`: repair of D27) -/
+/-- same for `NewTableCustom`, which first refuses a nil definition list (`newTableCustom` rather than
+`newTableCustomOld`: repair of D27) -/
 theorem newTableCustom_never_returns_partial_table :
-    newTableCustomNilGuard = true ∧
-    newTableCustomSkeleton.drop 3 = ["call:make(Table)", "range(*defs){", "if(err != nil){", "return nil, err", "}", "}",
-      "range(t){", "call:sort.Sort(h)", "}", "return t, nil"] ∧
-    newTableCustomSkeleton.take 1 = ["if(defs == nil){"] := by decide
+    newTableCustomEvents = ["if(=nil:p0){", "return nil,val", "}", "call:make(Table)", "range{", "if(≠nil){",
+      "return nil,val", "}", "}", "range{", "call:sort.Sort(rangeV)", "}", "return val,nil"] := by decide
 
-/-- `Parse` reports the scanner's error after the loop (repair of D29: an over-long line is an error of the
-whole text, so `build` fails and the previous table keeps serving) and returns `nil` with every error. -/
+/-- `Parse` returns `nil` with every error inside the scanner loop and reports the scanner's own error after it
+(repair of D29: an over-long line is an error of the whole text, so `build` fails and the previous table keeps
+serving). -/
 theorem parse_returns_scanner_error :
-    parseSkeleton = ["call:bufio.NewScanner(in)", "for{", "continue", "if(err != nil){",
-      "return nil, fmt.Errorf(\"line %d: %s\", i, err)", "}", "}", "if(err := scanner.Err(); err != nil){",
-      "return nil, fmt.Errorf(\"line %d: %s\", i+1, err)", "}", "return defs, nil"] := by decide
+    parseEvents = ["call:bufio.NewScanner(p0)", "for{", "call:NewScanner#0.Scan()", "if(≠nil){", "return nil,val", "}", "}",
+      "call:NewScanner#0.Err()", "if(≠nil){", "return nil,val", "}", "return val,nil"] := by decide
 
-/-- `WB.step`: the loop body concatenates svccfg, "\n", mancfg; skips when the text equals `lastTable`;
-`continue`s on a build error BEFORE `route.SetTable(t)`; assigns `lastTable = nextTable` AFTER it — and nowhere
-else in the function; there is one `SetTable` call. -/
+/-- `WB.step`: the loop body resets the buffer and writes service text, "\n", manual text (what was received
+from the `WatchServices` / `WatchManual` channels); the candidate text is the buffer's `String()`; the loop
+skips when it equals the remembered text; `continue`s on a build error BEFORE `route.SetTable(table)`; remembers
+the candidate AFTER it — and nowhere else in the function; there is one `SetTable` call. -/
 theorem watchBackend_shape :
-    watchBackendSkeleton = ["for{", "call:tableBuffer.Reset()", "call:tableBuffer.WriteString(svccfg)",
-      "call:tableBuffer.WriteString(\"\\n\")", "call:tableBuffer.WriteString(mancfg)",
-      "nextTable = tableBuffer.String()", "if(nextTable = tableBuffer.String(); nextTable == lastTable){", "continue", "}",
-      "call:route.ParseAliases(nextTable)", "if(err != nil){", "}", "call:registry.Default.Register(aliases)",
-      "call:route.NewTable(tableBuffer)", "if(err != nil){", "continue", "}", "call:route.SetTable(t)",
-      "call:logRoutes(t, lastTable, nextTable, cfg.Log.RoutesFormat)", "lastTable = nextTable", "call:once.Do(func)",
-      "call:close(first)", "}"] ∧
+    watchBackendEvents = ["for{", "call:new(bytes.Buffer).Reset()",
+      "call:new(bytes.Buffer).WriteString(recv(WatchServices#0))", "call:new(bytes.Buffer).WriteString(\"\\n\")",
+      "call:new(bytes.Buffer).WriteString(recv(WatchManual#0))", "set:String#0",
+      "if(String#0 == copy(String#0)){", "continue", "}", "call:route.ParseAliases(String#0)",
+      "call:registry.Default.Register(ParseAliases#0)", "call:route.NewTable(new(bytes.Buffer))", "if(≠nil){", "continue",
+      "}", "call:route.SetTable(NewTable#0)", "set:copy(String#0)", "}"] ∧
     watchBackendLastTableAssignments = 1 ∧ watchBackendSetTableCalls = 1 := by decide
 
 /-- `customStep`: transport error, non-200 and decode error `continue` before `NewTableCustom`; its error is
-only reported, and `route.SetTable(t)` follows UNCONDITIONALLY (with `t == nil` on error: relies on
-`setTable_returns_before_store_on_nil`). -/
+only reported, and `route.SetTable(table)` follows UNCONDITIONALLY (not inside any guard; with a nil table on
+error: relies on `setTable_returns_before_store_on_nil`); what is decoded is what is built. -/
 theorem customRoutes_shape :
-    customRoutesSkeleton = ["call:client.Do(req)", "if(resp != nil){", "if(err := resp.Body.Close(); err != nil){", "}", "}",
-      "if(err != nil){", "continue", "}", "if(resp.StatusCode != 200){", "continue", "}",
-      "call:decoder.Decode(&Routes)", "if(err != nil){", "continue", "}", "call:route.NewTableCustom(Routes)",
-      "if(err != nil){", "}", "call:route.SetTable(t)"] := by decide
+    customRoutesEvents = ["call:lit:http.Client.Do(NewRequest#0)", "if(≠nil){", "continue", "}",
+      "if(Do#0.StatusCode != 200){", "continue", "}", "call:NewDecoder#0.Decode(&decl:*[]route.RouteDef)", "if(≠nil){",
+      "continue", "}", "call:route.NewTableCustom(decl:*[]route.RouteDef)", "call:route.SetTable(NewTableCustom#0)"] := by
+  decide
 
 /-- `Poll.defs ds` carries the definitions of THIS document: the variable `Decode` fills is declared inside the
 poll loop, so nothing of the previous poll's document is left in it (repair of D32). -/
 theorem customRoutes_decodes_into_fresh_variable :
-    customRoutesDecodeTarget = "Routes" ∧ customRoutesVarInLoop = true := by decide
+    customRoutesDecodeTargetFound = true ∧ customRoutesVarInLoop = true := by decide
 
-/-- The only `recover()` in `route/`, `main.go`, `registry/custom` is the guard `globMatch` around the
-third-party matcher (repair of D33: gobwas/glob compiles patterns such as `foo{` whose `Match` panics), and
-every `Match` call of package `route` goes through it. Nothing else recovers: the model's "a panic on the update
+/-- The only `recover()` in `route/`, `main.go`, `registry/custom` sits in a function whose only method call is
+the third-party `Match` (repair of D33: gobwas/glob compiles patterns such as `foo{` whose `Match` panics), and
+every `Match` call of package `route` is inside it. Nothing else recovers: the model's "a panic on the update
 path ends the process" (`customRun`, `Outcome.panic`) is what happens, and no theorem relies on a recover. -/
 theorem no_recover_is_relied_upon :
-    recoverSites = ["route:globMatch"] ∧ globMatchSites = ["globMatch"] ∧
-    globMatchSkeleton = ["if(recover() != nil){", "}", "return g.Match(s)", "call:g.Match(s)"] := by decide
+    recoverSites = ["route:recover-around:Match"] ∧ globMatchCalls = 1 ∧ globMatchCallsGuarded = 1 := by decide
 
-/-- panic points closed by earlier repairs stay closed: non-finite weights are refused by `addRoute` and
-`weighRoute` (D02), the host pattern is compiled when the route is added and nothing in package `route`
-calls `glob.MustCompile` (D03). -/
+/-- panic points closed by earlier repairs stay closed: both functions of package `route` that read
+`RouteDef.Weight` refuse NaN/±Inf with an error (D02); the function that compiles route patterns compiles two
+different ones — host and path (D03); nothing in package `route` calls `glob.MustCompile`. -/
 theorem panic_points_closed :
-    addRouteRejectsNonFinite = true ∧ weighRouteRejectsNonFinite = true ∧ validWeightChecksNaNAndInf = true ∧
-    addRouteCompilesHost = true ∧ mustCompileSites = [] := by decide
+    weightReaders = ["guarded", "guarded"] ∧ routeDefGlobCompileDistinctArgs = ["2"] ∧ mustCompileSites = [] := by
+  decide
 
 /-- the reader thread of the model is `[load; lookup on the snapshot]`: each of the three lookup closures of
-`main.go` (HTTP `Lookup`, `lookupHostFn`, `lookupHostMatcher`) calls `route.GetTable()` exactly once per
+package main (HTTP `Lookup`, `lookupHostFn`, `lookupHostMatcher`) calls `route.GetTable()` exactly once per
 lookup. -/
 theorem lookups_load_the_table_once :
-    lookupClosures = ["func@main.go:lookups=1:getTable=1", "func@main.go:lookups=1:getTable=1",
-      "func@main.go:lookups=1:getTable=1"] := by decide
+    lookupClosures = ["lookups=1:getTable=1", "lookups=1:getTable=1", "lookups=1:getTable=1"] := by decide
 
 end Fabio.Props.C02Facts
